@@ -176,6 +176,7 @@ class C07(LinksMixin, Prop):
             g = ac.Gen(random.Random(rng.getrandbits(48)), full=rng.random() < 0.6, depth=rng.choice([1, 2, 2, 3]),
                        prethread=rng.random() < 0.25, carried=rng.choice([0.0, 0.0, 0.5]))
             g.before = i % 7 == 5  # another function in front of @f: every function is traced as if it were alone
+            g.opaque = 0.6 if i % 9 == 4 else 0.0  # opaque non-call operations annotated accfg.effects<full> / <none> / not at all
             g.statearg = i % 11 == 7  # the state of each accelerator arrives as a function argument (unknown contents)
             g.callee = i % 5 == 4  # unannotated calls to a function DEFINED in the module (it programs the accelerators)
             yield {"kind": "trace", "src": g.program(), "xseed": rng.getrandbits(32)}
@@ -185,6 +186,7 @@ class C07(LinksMixin, Prop):
             g = ac.Gen(random.Random(rng.getrandbits(48)), full=rng.random() < 0.6, depth=rng.choice([1, 2, 2, 3]),
                        prethread=rng.random() < 0.4, carried=rng.choice([0.0, 0.0, 0.0, 0.5]))
             g.callee = i % 5 == 4
+            g.opaque = 0.6 if i % 9 == 4 else 0.0
             g.before = i % 7 == 5
             src = g.program()
             if rng.random() < 0.4:
